@@ -2,7 +2,7 @@
     sent through the real middleware and compares status class, redirect
     target class, whether the probe handler ran, and the session table. *)
 From AGH Require Import Base.Run Model.Session.
-From AGH Require Export Model.AuthHttp Model.AuthLife.
+From AGH Require Export Model.AuthHttp Model.AuthLife Model.AuthMux.
 From AGH Require Import Proofs.AuthGlob Gen.Routes.
 From stdpp Require Import gmap.
 Local Open Scope Z_scope.
@@ -120,7 +120,14 @@ Inductive case :=
      model's business, see [env_with]). *)
   | CLife (f0 : option (list account))
           (steps : list (op * (option (bool * option (list account)) * option (list account) *
-                               list (env * chain_sel * request * obs)))).
+                               list (env * chain_sel * request * obs))))
+  (* round 6: paths nobody declared, on the mux the real setupContext made
+     and the real newWebAPI (and the wizard) registered on.  [regs]: the
+     declared patterns (table of tools/routes + the harness's probe routes)
+     found registered on that mux ([]: right after setupContext); per path:
+     the pattern the real ServeMux.Handler picked ([]: none) and whether the
+     mux answered with its own redirect. *)
+  | CServe (regs : list bytes) (qs : list (bytes * bytes * bool)).
 
 (** The map in memory only: the bucket is the business of C12 (Run/C12.v). *)
 Definition mk_sess (t : stable) : sstate :=
@@ -217,6 +224,25 @@ Fixpoint life_ok (st : life) (steps : list (op * life_obs)) : bool :=
       life_step_ok st' x && life_ok st' rest
   end.
 
+(** Round 6: what the mux model picks for a path, as the harness observes it. *)
+Definition serve_obs (regs : list bytes) (path : bytes) : bytes * bool :=
+  match mux_find (map (fun p => (p, tt)) regs) path with
+  | FServe p _ => (p, false)
+  | FRedirect to => (to, true)
+  | FNone => ([], false)
+  end.
+
+Definition str_verif_life : bytes := [118;101;114;105;102;95;108;105;102;101]%N.   (* verif_life *)
+
+(** A pattern the module declares (Gen/Routes.v) or a probe route of the harness. *)
+Definition declared_pat (p : bytes) : bool :=
+  existsb (fun rt => eqb_bytes (rt_pattern rt) p) Gen.Routes.routes || contains_sub str_verif_life p.
+
+Definition serve_q_ok (regs : list bytes) (q : bytes * bytes * bool) : bool :=
+  let '(path, op, ord) := q in
+  let '(mp, mr) := serve_obs regs path in
+  eqb_bytes mp op && Bool.eqb mr ord.
+
 Definition case_ok (c : case) : bool :=
   match c with
   | CProbe e sess k r o =>
@@ -257,6 +283,7 @@ Definition case_ok (c : case) : bool :=
       stab_ok (ss_mem s1) loaded && reload_reqs s1 reqs
   | CProbe2 ew e sess k r o => obs_ok o (run_probe_at ew e sess k r)
   | CLife f0 steps => life_ok {| l_file := f0; l_proc := None |} steps
+  | CServe regs qs => forallb declared_pat regs && forallb (serve_q_ok regs) qs
   end.
 
 Definition mismatches := Base.Run.mismatches case_ok.
@@ -305,4 +332,12 @@ Definition explain (c : case) : bool * Z * Z * stable :=
        snd fin,
        match l_file st with Some us => Z.of_nat (length us) | None => -1 end,
        match l_file st with Some us => map (fun '(n, h) => (n, (h, 0%N))) us | None => [] end)
+  | CServe regs qs =>
+      (* are all registered patterns declared ones; the number of the first
+         path the model answers differently (0: none); per path: the pattern
+         the model picks and whether it is the mux's redirect *)
+      (forallb declared_pat regs,
+       snd (fold_left (fun '(i, bad) q => (i + 1, if (bad =? 0) && negb (serve_q_ok regs q) then i + 1 else bad)) qs (0, 0)),
+       Z.of_nat (length regs),
+       map (fun '(path, _, _) => let '(mp, mr) := serve_obs regs path in (path, (mp, if mr then 1%N else 0%N))) qs)
   end.
